@@ -1208,7 +1208,12 @@ pub fn decode_match(reader: &mut BitReader) -> Result<(Match, usize)> {
         }
         CompressionType::Far2Long => {
             let distance = reader.read_bits(16)? as u16;
-            let length = decode_variable_length(reader)? as u16 + MIN_FAR2_LONG_LENGTH as u16; // Add offset back
+            // Add offset back; the variable-length field can hold far more than a u16, so
+            // widen first and reject what a Far2Long match cannot represent
+            let length = decode_variable_length(reader)? + MIN_FAR2_LONG_LENGTH as u32;
+            let length = u16::try_from(length).map_err(|_| {
+                ZiporaError::invalid_data(format!("Far2Long length {} out of range", length))
+            })?;
             Match::Far2Long { distance, length }
         }
         CompressionType::Far3Long => {
